@@ -37,6 +37,12 @@ def containsStr : Str → Str → Bool
   | [], sub => sub == []
   | x :: xs, sub => (stripPre sub (x :: xs)).isSome || containsStr xs sub
 
+/-- `posixpath.join(a, b)`: an absolute `b` wins; otherwise `a`, a slash unless `a` is empty or already ends with one, then `b` -/
+def pjoin (a b : Str) : Str :=
+  if b.head? = some 47 then b
+  else if a = [] ∨ a.getLast? = some 47 then a ++ b
+  else a ++ [47] ++ b
+
 /-- `str(n)` for an int -/
 def strOfInt (n : Int) : Str := (toString n).toList.map Char.toNat
 
